@@ -213,19 +213,25 @@ inductive LRes where
   | hit (s : Served)
 deriving DecidableEq, Repr
 
+/-- the comparison `cachedTTL` vs `currentTTL` of `GetPackedResponseWithApproximateTTL` -/
+def withinSlack (cached cur : Nat) : Bool :=
+  if cached ≥ cur then cached - cur ≤ SLACK else cur - cached ≤ SLACK
+
+/-- `currentTTL`: whole seconds left on `deadlineNano`, at least 1 -/
+def curTtl (e : Entry) (now : Int) : Nat := max 1 ((e.deadlineNano - now) / SEC).toNat
+
+/-- `prepackResponseWithTTL(currentTTL)` after the CAS on `packedResponseCreatedAt` -/
+def repack (e : Entry) (now : Int) : Entry :=
+  { e with packed := true, packedTTL := curTtl e now, packedAt := now }
+
 /-- `GetPackedResponseWithApproximateTTL`: the TTL inside the bytes returned (or `none` for `nil`)
-and the entry after a possible re-pack. -/
+and the entry after a possible re-pack.  The re-pack fails iff the authority record cannot be packed
+(`ns = 2`); the timestamp is then put back and the bytes stay as they were. -/
 def packedApprox (e : Entry) (now : Int) : Option Nat × Entry :=
-  if e.deadlineNano ≤ now then (none, e) else
-  let cur : Nat := max 1 ((e.deadlineNano - now) / SEC).toNat
-  if e.packed ∧ (if e.packedTTL ≥ cur then e.packedTTL - cur ≤ SLACK else cur - e.packedTTL ≤ SLACK) then
-    (some e.packedTTL, e)
-  else if now - e.packedAt > SEC ∧ e.ns ≠ 2 then
-    -- CAS on packedResponseCreatedAt, then prepackResponseWithTTL (it fails iff the authority record
-    -- cannot be packed; the timestamp is then put back and the bytes stay as they were)
-    (some cur, { e with packed := true, packedTTL := cur, packedAt := now })
-  else
-    (if e.packed then some e.packedTTL else none, e)
+  if e.deadlineNano ≤ now then (none, e)
+  else if e.packed ∧ withinSlack e.packedTTL (curTtl e now) then (some e.packedTTL, e)
+  else if now - e.packedAt > SEC ∧ e.ns ≠ 2 then (some (curTtl e now), repack e now)
+  else (if e.packed then some e.packedTTL else none, e)
 
 /-- `GetStaleResponse` -/
 def staleResp (e : Entry) (now : Int) (staleTtl : Int) : Option Nat :=
@@ -233,22 +239,29 @@ def staleResp (e : Entry) (now : Int) (staleTtl : Int) : Option Nat :=
   else if staleTtl > 0 ∧ now > e.deadlineNano + staleTtl * SEC then none
   else if e.packed then some e.packedTTL else none
 
+/-- `cache.lastAccessNano.Store(now.UnixNano())` -/
+def touch (e : Entry) (now : Int) : Entry := { e with lastAccess := now }
+
+/-- the deadline `LookupDnsRespCache_` tests: `OriginalDeadline` when `ignoreFixedTtl` -/
+def lookupDeadline (ign : Bool) (e : Entry) : Int := if ign then e.orig else e.deadline
+
+def freshServed (e : Entry) (ttl : Nat) (visible : Bool) : Served :=
+  ⟨e.id, e.src, e.ans, e.nAns, ttl, visible, false, false⟩
+
 /-- `LookupDnsRespCache_` on the entry found under the key: `none` as first component = evicted. -/
 def lookupEntry (cfg : Cfg) (now : Int) (ign : Bool) (e0 : Entry) : Option Entry × LRes :=
-  let e := { e0 with lastAccess := now }
-  let deadline := if ign then e.orig else e.deadline
-  if deadline > now then
-    match packedApprox e now with
-    | (some ttl, e') =>
-      (some e', .hit ⟨e.id, e.src, e.ans, e.nAns, ttl, e.nAns > 0 ∨ e.ns = 1, false, false⟩)
-    | (none, e') =>
+  let e := touch e0 now
+  if lookupDeadline ign e > now then
+    match (packedApprox e now).1 with
+    | some ttl => (some (packedApprox e now).2, .hit (freshServed e ttl (e.nAns > 0 || e.ns == 1)))
+    | none =>
       -- fillIntoWithTTLInPlace: answers only, exact remaining TTL of `Deadline`
-      (some e', .hit ⟨e.id, e.src, e.ans, e.nAns, ttlFromDeadline e.deadline now, e.nAns > 0, false, false⟩)
+      (some (packedApprox e now).2, .hit (freshServed e (ttlFromDeadline e.deadline now) (e.nAns > 0)))
   else if cfg.optimistic then
     match staleResp e now cfg.staleTtl with
     | some ttl =>
       (some { e with refreshing := true },
-        .hit ⟨e.id, e.src, e.ans, e.nAns, ttl, e.nAns > 0 ∨ e.ns = 1, true, !e.refreshing⟩)
+        .hit ⟨e.id, e.src, e.ans, e.nAns, ttl, e.nAns > 0 || e.ns == 1, true, !e.refreshing⟩)
     | none => (none, .miss)
   else (none, .miss)
 
